@@ -584,7 +584,7 @@ func (s *Sim) checkConvergence(c *Client) {
 			s.stat("exempt.unsure_query_variant", 1)
 			continue
 		}
-		if s.refetchFailed[v] {
+		if s.staleAfterFailedRefetch(v) {
 			// a query request or re-fetch through which the gateway would have
 			// learnt the current state (or the deletion) was not answered properly
 			s.stat("exempt.refetch_failed", 1)
